@@ -5,6 +5,7 @@ Theorems about `Model/Paths.lean` (`graph_to_paths`, `search_paths`, ordering an
 -/
 import IweModel.Lemmas.Paths
 import IweModel.Model.Symbols
+import IweModel.Lemmas.Cli
 
 namespace Iwe.C18
 open Iwe Iwe.Paths
@@ -502,6 +503,56 @@ example :
                  (Symbols.documentSymbols g "b").map fun s => (s.name, s.key, s.line))
      | .error _ => ([], []))
     = ([("B", "b", 0), ("\u2003\u2003A3", "a", 6), ("A2", "a", 4)], [("B", "b", 0)]) := by
+  decide +kernel
+
+/-! ### The command line (`Model/Cli.lean`): `iwe paths --depth d` and `iwe contents` -/
+
+/-- **`iwe paths --depth d` prints exactly the listed chains of at most `d` headings**: a line is
+printed iff it is the rendering (trimmed heading texts joined by ` • `) of a listed outline path with
+at most `d` headings — nothing invented, nothing dropped -/
+theorem cli_paths_exact (g : Graph) (d : Nat) (line : String) :
+    line ∈ Cli.pathsOutput g d ↔
+      ∃ p ∈ graphToPaths g, p.length ≤ d ∧ line = Symbols.renderPath g p := by
+  unfold Cli.pathsOutput
+  rw [Cli.mem_sortUnique, List.mem_map]
+  constructor
+  · rintro ⟨p, hp, rfl⟩
+    obtain ⟨hp1, hp2⟩ := List.mem_filter.1 hp
+    exact ⟨p, hp1, by simpa using hp2, rfl⟩
+  · rintro ⟨p, hp, hd, rfl⟩
+    exact ⟨p, List.mem_filter.2 ⟨hp, by simpa using hd⟩, rfl⟩
+
+/-- the listing is strictly increasing in the byte order of its lines: sorted, every line once -/
+theorem cli_paths_sorted_unique (g : Graph) (d : Nat) :
+    (Cli.pathsOutput g d).Pairwise (fun a b => a < b) :=
+  Cli.sortUnique_sorted _
+
+/-- **`iwe contents`**: after the heading line, one `[title](key)` reference for every note that owns
+a one-heading outline path (a top-level heading of a note nobody includes), sorted, each once -/
+theorem cli_contents_exact (g : Graph) (line : String) :
+    line ∈ Cli.contentsOutput g ↔
+      line = "# Contents" ∨ ∃ p ∈ graphToPaths g, p.length ≤ 1
+        ∧ line = Cli.blockReference g ((g.nodeKey (p.head?.getD 0)).getD "") := by
+  unfold Cli.contentsOutput
+  rw [List.mem_cons, Cli.mem_sortUnique, List.mem_map]
+  constructor
+  · rintro (h | ⟨p, hp, rfl⟩)
+    · exact Or.inl h
+    · obtain ⟨hp1, hp2⟩ := List.mem_filter.1 hp
+      exact Or.inr ⟨p, hp1, by simpa using hp2, rfl⟩
+  · rintro (h | ⟨p, hp, hd, rfl⟩)
+    · exact Or.inl h
+    · exact Or.inr ⟨p, List.mem_filter.2 ⟨hp, by simpa using hd⟩, rfl⟩
+
+/-- non-vacuity (kernel-evaluated): `a` = `# A`, `## A2` and includes `b` = `# B` -/
+example :
+    (match Graph.importDocs "" [
+        ("a", ⟨[.header ⟨0, 1⟩ 1 [.str "A"], .para ⟨2, 3⟩ [.link "b" "" .regular [.str "x"]],
+                .header ⟨4, 5⟩ 2 [.str "A2"]], none⟩),
+        ("b", ⟨[.header ⟨0, 1⟩ 1 [.str "B"]], none⟩)] with
+     | .ok g => (Cli.pathsOutput g 2, Cli.pathsOutput g 1, Cli.contentsOutput g)
+     | .error _ => ([], [], []))
+    = (["A", "A • A2", "A • B"], ["A"], ["# Contents", "[A](a)"]) := by
   decide +kernel
 
 /-- the first draft of `Step` (false, see below) -/
